@@ -58,6 +58,13 @@ Section Statements.
     /\ elide_end cw text ell max = EOut text (swidth cw text).
   Proof. exact (elide_fits_unchanged cw). Qed.
 
+  (** Idempotence: the output of elide_* is a fixed point of elide_* for the same ellipsis and
+      limit (a template that truncates an already truncated string changes nothing). *)
+  Corollary C44_elide_idempotent : forall text ell max out w,
+    (elide_start cw text ell max = EOut out w -> elide_start cw out ell max = EOut out w)
+    /\ (elide_end cw text ell max = EOut out w -> elide_end cw out ell max = EOut out w).
+  Proof. exact (elide_idempotent cw). Qed.
+
   (** Nothing is dropped that would still have fitted: the first character elide_end leaves out
       does not fit in front of the ellipsis ... *)
   Theorem C44_elide_end_maximal : forall (text ell : list A) max out w,
